@@ -36,7 +36,7 @@ func c8post(url string, body []byte) (int, error) {
 			code = 400
 		}
 	case 2:
-		code = []int{200, 400, 500, 0}[vrt.Choose(4)]
+		code = []int{200, 400, 500, 0, 408, 429, 413, 503}[vrt.Choose(vrt.Param("outcomes", 6))]
 	}
 	c8log = append(c8log, c8req{week: week, body: string(body), code: code, recorded: vuExists(vuDir + "/upload/" + week + ".json")})
 	if code == 0 {
@@ -86,8 +86,15 @@ func VC08_seq() {
 	vuAddCountFile(u0, "f", end-7, end, vuBuilds[0], map[string]uint64{"c": 3})
 	ready := vuDir + "/local/" + week + ".json"
 	uploaded := vuDir + "/upload/" + week + ".json"
+	// optionally a second uploadable file for the same week under a name that only ends in
+	// the date (a stray copy): the week must still be acknowledged at most once
+	// (it appears after the first run, when the week's own report may already exist)
+	stray := vrt.Bool()
 	kills, rejected := 0, false
 	for run := 0; run < vrt.Param("runs", 2); run++ {
+		if stray && run == 1 {
+			vos.AddFile(vuDir+"/local/copy-"+week+".json", []byte("S"))
+		}
 		u := c8uploader(end)
 		vuPreload(u, u0)
 		vuX = c8nextX()
@@ -105,11 +112,11 @@ func VC08_seq() {
 			continue
 		}
 		// disposal by outcome (uninterrupted runs that made exactly one request)
-		if len(c8log) == before+1 {
+		if len(c8log) == before+1 && !stray {
 			switch c8log[before].code {
-			case 500, 0:
+			case 500, 503, 0:
 				vrt.Assert(vuExists(ready), "a server error or no answer leaves the report in place for a later run")
-			case 400:
+			case 400, 408, 429, 413:
 				rejected = true
 				vrt.Assert(!vuExists(ready), "a report answered with a client error is discarded")
 				vrt.Assert(vuExists(uploaded) == hadUp, "a rejected report is not marked uploaded")
@@ -127,6 +134,11 @@ func VC08_seq() {
 	vos.Revive(0)
 	u.Run()
 	acks := c8check(week)
+	for _, r := range c8log {
+		if r.code >= 400 && r.code < 500 {
+			rejected = true
+		}
+	}
 	if kills == 0 && !rejected {
 		vrt.Assert(acks == 1, "without crashes (and without a client-error answer) the week is eventually acknowledged exactly once")
 	}
